@@ -12,9 +12,11 @@ import (
 	"net"
 	"net/http"
 	"os"
+	"os/signal"
 	"strings"
 	"sync"
 	"sync/atomic"
+	"syscall"
 	"testing"
 	"testing/synctest"
 	"time"
@@ -254,4 +256,11 @@ func (l *wsLog) snapshot() ([]protocol.Envelope, bool) {
 	return append([]protocol.Envelope(nil), l.envs...), l.closed
 }
 
-func initWorldOnce() { termio.Init() }
+func initWorldOnce() {
+	termio.Init()
+	// the runtime's signal goroutine and its channels must come into being outside any
+	// bubble (the application calls signal.Notify)
+	c := make(chan os.Signal, 1)
+	signal.Notify(c, syscall.SIGUSR2)
+	signal.Stop(c)
+}
